@@ -1,7 +1,97 @@
-(* C12 — sorted-array kernels compute their set-theoretic definitions.  (theorems are added as they close) *)
-From SA Require Import Base.Prelude Kernels.Intersect Kernels.Linear Kernels.Spec.
+(* C12 — sorted-array kernels compute their set-theoretic definitions.
+   Statement-only file: each theorem is closed by [exact] of a lemma proved in Kernels/*_Correct.v / Linear_Proofs.v.
+   Model = line-level transliteration of the .pyx kernels (Kernels/Intersect.v, Kernels/Linear.v);
+   Spec  = Kernels/Spec.v.  `= Done spec` includes: no out-of-bounds access, no fuel exhaustion. *)
+From Coq Require Import Sorted.
+From SA Require Import Base.Prelude Kernels.Intersect Kernels.Linear Kernels.Spec
+  Kernels.Intersect_Correct Kernels.Linear_Proofs.
 Open Scope N_scope.
-Example C12_placeholder_nonvacuity :
-  intersect_drop [1;2;3;5;5;9] [0;5;5;6;9] wmask = Done (fst (intersect_drop_spec [1;2;3;5;5;9] [0;5;5;6;9] wmask),
-                                                         snd (intersect_drop_spec [1;2;3;5;5;9] [0;5;5;6;9] wmask)).
-Proof. vm_compute. reflexivity. Qed.
+
+(* masked values non-decreasing (what "sorted under a mask of contiguous high bits" gives) *)
+Notation msorted_idx := Intersect_Correct.msorted.
+
+Theorem C12_intersect_drop : forall l r mask,
+  msorted_idx l mask -> msorted_idx r mask ->
+  N.of_nat (length l) < 2 ^ 62 -> N.of_nat (length r) < 2 ^ 62 ->
+  intersect_drop l r mask = Done (intersect_drop_spec l r mask).
+Proof. exact intersect_drop_correct. Qed.
+Print Assumptions C12_intersect_drop.
+
+Theorem C12_intersect_keep : forall l r mask,
+  msorted_idx l mask -> msorted_idx r mask ->
+  N.of_nat (length l) < 2 ^ 62 -> N.of_nat (length r) < 2 ^ 62 ->
+  intersect_keep l r mask = Done (intersect_keep_spec l r mask).
+Proof. exact intersect_keep_correct. Qed.
+Print Assumptions C12_intersect_keep.
+
+Theorem C12_sorted_gives_msorted : forall l mask, Sorted N.le (mvals l mask) -> msorted_idx l mask.
+Proof. exact sorted_msorted. Qed.
+
+Theorem C12_merge : forall l r, Sorted N.le l -> Sorted N.le r -> merge l r = Done (merge_spec l r).
+Proof. exact merge_correct. Qed.
+Print Assumptions C12_merge.
+
+Theorem C12_merge_drop : forall l r, Sorted N.lt l -> Sorted N.lt r -> merge_drop l r = Done (merge_drop_spec l r).
+Proof. exact merge_drop_correct. Qed.
+Print Assumptions C12_merge_drop.
+
+Theorem C12_sort_merge_counts : forall li lc ri rc, length li = length lc -> length ri = length rc ->
+  Sorted N.lt li -> Sorted N.lt ri ->
+  sort_merge_counts li lc ri rc = Done (sort_merge_counts_spec li lc ri rc).
+Proof. exact sort_merge_counts_correct. Qed.
+Print Assumptions C12_sort_merge_counts.
+
+Theorem C12_unique : forall a rshift, a <> [] \/ rshift = 0 -> unique a rshift = Done (unique_spec a rshift).
+Proof. exact unique_correct. Qed.
+Print Assumptions C12_unique.
+
+(* lower bound + presence; the (None, _) case is "target larger than every element": never reported present *)
+Theorem C12_binary_search : forall a t m start,
+  Linear_Proofs.msorted a m -> N.of_nat (length a) < 2 ^ 62 -> start <= count_lt (N.land t m) (mvals a m) ->
+  match search_spec a t m start with
+  | (Some lb, present) => binary_search a t m start = Done (lb, present)
+  | (None, _) => exists i, binary_search a t m start = Done (i, false)
+  end.
+Proof. exact binary_search_correct. Qed.
+Print Assumptions C12_binary_search.
+
+Theorem C12_galloping_search : forall a t m start,
+  Linear_Proofs.msorted a m -> N.of_nat (length a) < 2 ^ 62 -> start <= count_lt (N.land t m) (mvals a m) ->
+  match search_spec a t m start with
+  | (Some lb, present) => galloping_search a t m start = Done (lb, present)
+  | (None, _) => exists i, galloping_search a t m start = Done (i, false)
+  end.
+Proof. exact galloping_search_correct. Qed.
+Print Assumptions C12_galloping_search.
+
+Theorem C12_popcount_reduce_at : forall ids p, length ids = length p ->
+  popcount_reduce_at ids p = PyOk (Done (popcount_reduce_at_spec ids p)).
+Proof. exact popcount_reduce_at_correct. Qed.
+Print Assumptions C12_popcount_reduce_at.
+
+Theorem C12_key_sum_over : forall ids c, length ids = length c ->
+  key_sum_over ids c = PyOk (Done (key_sum_over_spec ids c)).
+Proof. exact key_sum_over_correct. Qed.
+
+Theorem C12_reduce_length_mismatch : forall w ids p, length ids <> length p -> reduce_at_wrapper w ids p = PyValueError.
+Proof. exact reduce_at_length_mismatch. Qed.
+
+Theorem C12_popcount64_reduce : forall a ks vm, popcount64_reduce a ks vm = Done (popcount64_reduce_spec a ks vm).
+Proof. exact popcount64_reduce_correct. Qed.
+Print Assumptions C12_popcount64_reduce.
+
+Theorem C12_as_dense : forall idx vals size, length idx = length vals -> Forall (fun i => i < size) idx ->
+  as_dense idx vals size = PyOk (Done (as_dense_spec idx vals size)).
+Proof. exact as_dense_correct. Qed.
+Print Assumptions C12_as_dense.
+
+(* non-vacuity: hypotheses met by concrete inputs with duplicates under the header mask *)
+Example C12_nonvacuous :
+  let l := [262144; 262145; 524288; 786432; 786440] in let r := [5; 524289; 786432; 786433; 1048576] in
+  let m := 18446744073709289472 in
+  Sorted N.le (mvals l m) /\ Sorted N.le (mvals r m) /\
+  intersect_drop l r m = Done ([2; 3], [1; 2]) /\ intersect_keep l r m = Done ([2; 3; 4], [1; 2; 3]).
+Proof. cbv zeta. repeat split; try (vm_compute; reflexivity); vm_compute; repeat constructor; discriminate. Qed.
+
+(* NOT yet proved here (the check still compares model, spec and implementation on these):
+   adjacent = adjacent_spec and the fused kernel = (intersect_drop_spec modulo right occurrence, adjacent_spec). *)
